@@ -79,6 +79,21 @@ fn callee_info<'tcx>(cx: &Cx<'tcx>, owner: LocalDefId, fty: Ty<'tcx>) -> Vec<(&'
                 v.push(("trait", J::s(cx.path(tr))));
             }
             v.extend(fn_attrs(cx, eff));
+            // blanket `impl<T, U: From<T>> Into<U> for T`: name the From impl the call really enters
+            if let Some(tr) = tcx.trait_of_assoc(*did) {
+                if tcx.is_diagnostic_item(rustc_span::sym::Into, tr) && args.len() == 2 {
+                    if let Some(from_tr) = tcx.get_diagnostic_item(rustc_span::sym::From) {
+                        let from_fn = tcx.associated_item_def_ids(from_tr).iter().copied().next();
+                        if let Some(from_fn) = from_fn {
+                            let nargs = tcx.mk_args(&[args[1], args[0]]);
+                            let (r2, _) = resolve(tcx, owner, from_fn, nargs);
+                            if let Some(r2) = r2 {
+                                v.push(("via_from", J::s(cx.path(r2))));
+                            }
+                        }
+                    }
+                }
+            }
         }
         ty::FnPtr(..) => {
             v.push(("callee", J::s("<fnptr>")));
